@@ -1119,6 +1119,141 @@ def standin_closure_build(tier, seed):
     return dict(name='closure_build', bound=bound, cases=len(cases), status='ok')
 
 
-# @@TEMPLATES@@
+# ------------------------------------------------------------------ closures: the deterministic part (templates x captured values x call orders)
+def closure_cases(tier):
+    """(program, {name: canonical value}, uses_field_call): two or more function values made by ONE `func` expression under different captured
+    values, called with EQUAL arguments; the expected values are computed here from the captured value of each instance"""
+    cs = []
+
+    def add(prog, exp, field_call=False):
+        cs.append((prog, dict((n, cshow(v)) for n, v in exp.items()), field_call))
+    ops = [('+', lambda x, n: x + n), ('*', lambda x, n: x * n)]
+    pairs = [(1, 10), (3, 2)] if tier != 'thorough' else [(1, 10), (3, 2), (0, 7), (4, 5)]
+    gaps = ['', 'let k1 = 1;\n'] if tier != 'thorough' else ['', 'let k1 = 1;\n', 'let k1 = func (x) => x;\nlet k2 = k1(5);\n']
+    w = 5
+    for (osym, o) in ops:
+        for (u, v) in pairs:
+            body = 'x %s n' % osym
+            mk = 'let mk = func (n) => func (x) => %s;\n' % body
+            for G in gaps:
+                # A. one factory, two instances, every call order of length 3 that uses both, as separate statements
+                for order in ('112', '121', '122', '211', '212', '221'):
+                    prog = mk + 'let c1 = mk(%d);\n%slet c2 = mk(%d);\n' % (u, G, v)
+                    exp = {}
+                    for i, ch in enumerate(order):
+                        prog += 'let r%d = c%s(%d);\n' % (i, ch, w)
+                        exp['r%d' % i] = o(w, u if ch == '1' else v)
+                    add(prog, exp)
+                # the second instance is made only after the first one was called (and the other way round)
+                add(mk + 'let c1 = mk(%d);\nlet a = c1(%d);\n%slet c2 = mk(%d);\nlet b = c2(%d);\nlet c = c1(%d);' % (u, w, G, v, w, w), {'a': o(w, u), 'b': o(w, v), 'c': o(w, u)})
+                add(mk + 'let c2 = mk(%d);\nlet b = c2(%d);\n%slet c1 = mk(%d);\nlet a = c1(%d);\nlet c = c2(%d);' % (v, w, G, u, w, w), {'a': o(w, u), 'b': o(w, v), 'c': o(w, v)})
+                # all calls inside one list / one expression
+                add(mk + 'let c1 = mk(%d);\nlet c2 = mk(%d);\n%slet r = [c1(%d), c2(%d), c1(%d), c2(%d)];\nlet s = c1(%d) * 1000 + c2(%d);' % (u, v, G, w, w, w, w, w, w),
+                    {'r': [o(w, u), o(w, v), o(w, u), o(w, v)], 's': o(w, u) * 1000 + o(w, v)})
+                # D. built by a map callback / by reduce; applied by map, by reduce, after picking them out of the list
+                add('let fs = map(func (n) => func (x) => %s, [%d, %d, %d]);\n%slet r = map(func (f) => f(%d), fs);\nlet g = fs.0;\nlet h = fs.1;\nlet s = [g(%d), h(%d), g(%d)];\n'
+                    'let z = reduce(func (acc, f) => acc * 100 + f(%d), 0, fs);' % (body, u, v, u, G, w, w, w, w, w),
+                    {'r': [o(w, u), o(w, v), o(w, u)], 's': [o(w, u), o(w, v), o(w, u)], 'z': (o(w, u) * 100 + o(w, v)) * 100 + o(w, u)})
+                add('let fs = reduce(func (acc, n) => acc + [func (x) => %s], [], [%d, %d]);\n%slet r = map(func (f) => f(%d), fs);\nlet h = fs.1;\nlet g = fs.0;\nlet s = [h(%d), g(%d)];' % (body, u, v, G, w, w, w),
+                    {'r': [o(w, u), o(w, v)], 's': [o(w, v), o(w, u)]})
+                add('let n = 100;\nlet fs = map(func (n) => func (x) => %s, [%d, %d]);\n%slet f2 = fs.0;\nlet f3 = fs.1;\nlet r = [f2(%d), f3(%d)];\nlet after = n;' % (body, u, v, G, w, w),
+                    {'r': [o(w, u), o(w, v)], 'after': 100, 'n': 100})
+                # E / F. held by tuples and lists
+                add(mk + 'let t = {f = mk(%d), g = mk(%d)};\n%slet r = [t.f(%d), t.g(%d), t.f(%d)];' % (u, v, G, w, w, w), {'r': [o(w, u), o(w, v), o(w, u)]}, True)
+                add(mk + 'let t = {a = {f = mk(%d)}, b = {f = mk(%d)}};\n%slet r = [t.b.f(%d), t.a.f(%d)];' % (u, v, G, w, w), {'r': [o(w, v), o(w, u)]}, True)
+                add(mk + 'let t = {f = mk(%d), g = mk(%d)};\n%slet tf = t.f;\nlet tg = t.g;\nlet r = [tf(%d), tg(%d), tf(%d)];' % (u, v, G, w, w, w), {'r': [o(w, u), o(w, v), o(w, u)]})
+                add(mk + 'let l = [mk(%d), mk(%d)];\n%slet l1 = l.1;\nlet l0 = l.0;\nlet r = [l0(%d), l1(%d)];\nlet s = map(func (f) => f(%d), l);' % (u, v, G, w, w, w), {'r': [o(w, u), o(w, v)], 's': [o(w, u), o(w, v)]})
+                # G / H. called from inside another function, a map callback, a reduce callback (each runs on its own)
+                add(mk + 'let c1 = mk(%d);\nlet c2 = mk(%d);\n%slet both = func (x) => [c1(x), c2(x), c1(x)];\nlet r = both(%d);\nlet again = both(%d);' % (u, v, G, w, w),
+                    {'r': [o(w, u), o(w, v), o(w, u)], 'again': [o(w, u), o(w, v), o(w, u)]})
+                add(mk + 'let c1 = mk(%d);\nlet c2 = mk(%d);\n%slet r = map(func (i) => c1(i) * 1000 + c2(i), [%d, %d, 1]);' % (u, v, G, w, w),
+                    {'r': [o(w, u) * 1000 + o(w, v), o(w, u) * 1000 + o(w, v), o(1, u) * 1000 + o(1, v)]})
+                add(mk + 'let use = func (k) => mk(k);\nlet d1 = use(%d);\n%slet d2 = use(%d);\nlet r = [d1(%d), d2(%d)];' % (u, G, v, w, w), {'r': [o(w, u), o(w, v)]})
+                # J. closures wrapping / receiving closures
+                add(mk + 'let c1 = mk(%d);\nlet c2 = mk(%d);\n%slet wrap = func (f) => func (x) => f(x) + 1;\nlet w1 = wrap(c1);\nlet w2 = wrap(c2);\nlet r = [w1(%d), w2(%d), w1(%d)];\n'
+                    'let twice = func (f, x) => f(f(x));\nlet s = [twice(c1, %d), twice(c2, %d)];' % (u, v, G, w, w, w, w, w),
+                    {'r': [o(w, u) + 1, o(w, v) + 1, o(w, u) + 1], 's': [o(o(w, u), u), o(o(w, v), v)]})
+                # K. an alias is the same function; a parameter called like an outer binding hides it inside only
+                add('let n = 100;\nlet x = 200;\n' + mk + 'let c1 = mk(%d);\n%slet c2 = mk(%d);\nlet alias = c1;\nlet r = [c1(%d), alias(%d), c2(%d)];\nlet after = [n, x];' % (u, G, v, w, w, w),
+                    {'r': [o(w, u), o(w, u), o(w, v)], 'after': [100, 200]})
+                add('let mk = func (n) => func (x) => map(func (n) => %s, [n, n + 1]);\nlet c1 = mk(%d);\n%slet c2 = mk(%d);\nlet r = [c1(%d), c2(%d)];' % ('n %s x' % osym, u, G, v, w, w),
+                    {'r': [[o(u, w), o(u + 1, w)], [o(v, w), o(v + 1, w)]]})
+                # R. made in the branches of a select
+                add(mk + 'let pick = func (b) => select (b, 0) => {true = mk(%d), false = mk(%d)};\n%slet s1 = pick(true);\nlet s2 = pick(false);\nlet r = [s1(%d), s2(%d), s1(%d)];' % (u, v, G, w, w, w),
+                    {'r': [o(w, u), o(w, v), o(w, u)]})
+                # I. module instances: every instantiation is evaluated afresh over its own `mod`
+                m = 'let m = module {k = 1} => { let f = func (x) => x %s mod.k; let r = f(%d); let mk = func (n) => func (x) => n * 100 + (x %s mod.k); let g = mk(2); };\n' % (osym, w, osym)
+                add(m + 'let i1 = m{k = %d};\n%slet i2 = m{k = %d};\nlet i0 = m{};\nlet i3 = m{k = %d};\nlet r = [i1.r, i2.r, i0.r, i3.r];' % (u, G, v, u), {'r': [o(w, u), o(w, v), o(w, 1), o(w, u)]})
+                add(m + 'let i1 = m{k = %d};\n%slet i2 = m{k = %d};\nlet r = [i1.f(%d), i2.f(%d), i1.g(%d), i2.g(%d), i1.f(%d)];' % (u, G, v, w, w, w, w, w),
+                    {'r': [o(w, u), o(w, v), 200 + o(w, u), 200 + o(w, v), o(w, u)]}, True)
+                add(m + 'let i1 = m{k = %d};\n%slet i2 = m{k = %d};\nlet f1 = i1.f;\nlet f2 = i2.f;\nlet g1 = i1.g;\nlet g2 = i2.g;\nlet r = [f1(%d), f2(%d), g1(%d), g2(%d), f1(%d)];' % (u, G, v, w, w, w, w, w),
+                    {'r': [o(w, u), o(w, v), 200 + o(w, u), 200 + o(w, v), o(w, u)]})
+                add('let m = module {k = 1} => (f) { let f = func (x) => x %s mod.k; };\nlet f1 = m{k = %d};\n%slet f2 = m{k = %d};\nlet f0 = m{};\nlet r = [f1(%d), f2(%d), f0(%d), f1(%d)];' % (osym, u, G, v, w, w, w, w),
+                    {'r': [o(w, u), o(w, v), o(w, 1), o(w, u)]})
+            # B / C. deeper factories: every partial application is a function value of its own
+            add('let mk = func (a) => func (b) => func (c) => (a * 100 + b * 10) %s c;\nlet m1 = mk(%d);\nlet m2 = mk(%d);\nlet p = m1(3);\nlet q = m2(3);\nlet p2 = m1(4);\n'
+                'let r = [p(%d), q(%d), p2(%d), p(%d)];' % (osym, u, v, w, w, w, w), {'r': [o(u * 100 + 30, w), o(v * 100 + 30, w), o(u * 100 + 40, w), o(u * 100 + 30, w)]})
+            lines = ['let mk = func (a) => func (b) => func (c) => func (d) => (a * 1000 + b * 100 + c * 10) %s d;' % osym]
+            exp, names = [], []
+            for a in (u, v):
+                lines.append('let m%d = mk(%d);' % (a, a))
+                for b in (u, v):
+                    lines.append('let m%d_%d = m%d(%d);' % (a, b, a, b))
+                    for c in (u, v):
+                        lines.append('let m%d_%d_%d = m%d_%d(%d);' % (a, b, c, a, b, c))
+                        names.append('m%d_%d_%d' % (a, b, c))
+                        exp.append(o(a * 1000 + b * 100 + c * 10, w))
+            lines.append('let r = [%s];' % ', '.join('%s(%d)' % (n, w) for n in names))
+            lines.append('let s = [%s];' % ', '.join('%s(%d)' % (n, w) for n in reversed(names)))
+            add('\n'.join(lines), {'r': exp, 's': list(reversed(exp))})
+            # M. two captured values of which only one differs
+            add('let mk = func (a, b) => func (x) => (a * 100 + b * 10) %s x;\nlet c1 = mk(%d, %d);\nlet c2 = mk(%d, %d);\nlet c3 = mk(%d, %d);\nlet r = [c1(%d), c2(%d), c3(%d), c1(%d)];' % (osym, u, u, u, v, v, u, w, w, w, w),
+                {'r': [o(u * 110, w), o(u * 100 + v * 10, w), o(v * 100 + u * 10, w), o(u * 110, w)]})
+    # L. captured values of other types
+    add('let pre = func (s) => func (x) => s + x;\nlet a = pre("a");\nlet b = pre("b");\nlet r = [a("z"), b("z"), a("z")];', {'r': ['az', 'bz', 'az']})
+    add('let app = func (l) => func (i) => l + [i];\nlet a = app([1]);\nlet b = app([2, 3]);\nlet r = [a(9), b(9), a(9)];', {'r': [[1, 9], [2, 3, 9], [1, 9]]})
+    add('let get = func (t) => func (k) => t.v + k;\nlet a = get({v = 1});\nlet b = get({v = 20});\nlet r = [a(5), b(5), a(5)];', {'r': [6, 25, 6]})
+    add('let gate = func (b) => func (x) => select (b, 0) => {true = x};\nlet a = gate(true);\nlet b = gate(false);\nlet r = [a(5), b(5), a(5)];', {'r': [5, 0, 5]})
+    add('let fmt = func (p) => func (x) => "@-@" % (p, x);\nlet a = fmt("l");\nlet b = fmt(2);\nlet r = [a(5), b(5), a(5)];', {'r': ['l-5', '2-5', 'l-5']})
+    add('let sel = func (t) => func (x) => t{w = self.v + x};\nlet a = sel({v = 1});\nlet b = sel({v = 20});\nlet r = [a(5).w, b(5).w, a(5).w];', {'r': [6, 25, 6]})
+    return cs
+
+
+def check_closure_cases(mode, tier, name):
+    cs = [c for c in closure_cases(tier) if mode == 'eval' or not c[2]]          # KNOWN_FIELD_CALL
+    progs = []
+    for p, exp, _ in cs:
+        if mode == 'buildfile':
+            p = p.rstrip('\n') + ''.join('\nlet chk%d = select (%s == %s) => {true = 1};' % (i, n, re.sub(r'([,=])', r'\1 ', v)) for i, (n, v) in enumerate(sorted(exp.items())))
+        progs.append(p)
+    res = R.driver(mode, progs)
+    bound = ('%d programs: {x + n, x * n} x captured pairs x gaps of unrelated statements x {two instances of one factory in all 6 call orders of length 3, second instance made after the first was '
+             'called, calls in one list / one expression, closures built by map and by reduce callbacks (applied by map, by reduce, after being picked out), held by tuples, nested tuples and lists, '
+             'called from a function body / map callback, made through a second function, wrapped by and passed to closures, aliased, parameters named like outer bindings, made in select branches, '
+             'module instances with different parameters (plain, with closures, with a closure as out-expression)}; factories of depth 3 and 4 with all partial applications; two captured values; '
+             'captured strings, lists, tuples, booleans' % len(progs))
+    for p, (_, exp, _), (st, out) in zip(progs, cs, res):
+        bad = None
+        if st != 'OK':
+            bad = 'must build, observed %s %s' % (st, out[:200].replace('\n', ' '))
+        elif mode == 'eval':
+            got = cfields(out) or {}
+            wrong = ['%s = %s, expected %s' % (n, got.get(n, '(unbound)'), v) for n, v in sorted(exp.items()) if got.get(n) != v]
+            if wrong:
+                bad = '; '.join(wrong)
+        if bad:
+            return dict(name=name, bound=bound, cases=len(progs), status='violation', detail='`%s`: %s' % (p.replace('\n', ' '), bad),
+                        input=dict(source=p, expected=json.dumps(exp, sort_keys=True), observed='%s %s' % (st, out[:400]), how=HOW[mode]))
+    return dict(name=name, bound=bound, cases=len(progs), status='ok')
+
+
+def standin_closure_cases_eval(tier, seed):
+    return check_closure_cases('eval', tier, 'closure_cases_eval')
+
+
+def standin_closure_cases_build(tier, seed):
+    return check_closure_cases('buildfile', tier, 'closure_cases_build')
+
+
 STANDINS = [standin_prefix_values, standin_prefix_values_build, standin_scope_eval, standin_scope_build, standin_reserved_positions, standin_golden_prefixes,
-            standin_closure_prefixes, standin_closure_build]
+            standin_closure_cases_eval, standin_closure_cases_build, standin_closure_prefixes, standin_closure_build]
